@@ -248,6 +248,7 @@ func (p *Prog) modsetOf(fi *FuncInfo, body ast.Node, ms map[string]bool, bind ma
 		case *ast.SendStmt:
 			// channel ghost effects
 			ms["$chan"] = true
+			ms["F.$chan.sent.*"] = true
 		case *ast.CallExpr:
 			p.modsetCall(fi, s, ms, bind)
 		}
@@ -468,6 +469,9 @@ func modsetMatches(ms map[string]bool, hv string) bool {
 		return true
 	}
 	if strings.HasPrefix(hv, "F.$deref.") && ms["F.$deref.*"] {
+		return true
+	}
+	if strings.HasPrefix(hv, "F.$chan.sent.") && (ms["F.$chan.sent.*"] || ms["$chan"]) {
 		return true
 	}
 	if strings.HasPrefix(hv, "F.") {
